@@ -1,0 +1,105 @@
+//! Verification hooks. This module only exists with `--cfg regexml_verif`.
+//!
+//! `tick(site)` is called at every loop head and iterator step of the
+//! engine. It (1) calls the scheduler callback if one is installed (the
+//! verification harness uses this as a preemption point), (2) counts the
+//! site, (3) decrements a thread-local step budget and unwinds with a
+//! `FuelExhausted` payload when the budget is used up, which turns
+//! non-termination into a deterministic, catchable observation.
+
+use std::cell::Cell;
+use std::sync::atomic::{AtomicBool, Ordering};
+use std::sync::RwLock;
+
+/// Number of distinct tick sites.
+pub const SITES: usize = 40;
+
+/// Payload of the unwind raised when the step budget is exhausted.
+#[derive(Debug, Clone, Copy)]
+pub struct FuelExhausted {
+    /// The site whose tick exhausted the budget.
+    pub site: u32,
+}
+
+thread_local! {
+    static FUEL: Cell<u64> = const { Cell::new(u64::MAX) };
+    static USED: Cell<u64> = const { Cell::new(0) };
+    static COUNTS: [Cell<u64>; SITES] = const { [const { Cell::new(0) }; SITES] };
+}
+
+static SCHED_ON: AtomicBool = AtomicBool::new(false);
+#[allow(clippy::type_complexity)]
+static SCHED_FN: RwLock<Option<Box<dyn Fn(u32) + Send + Sync>>> = RwLock::new(None);
+
+/// Set the step budget of the current thread and reset the used counter.
+pub fn set_fuel(n: u64) {
+    FUEL.with(|f| f.set(n));
+    USED.with(|u| u.set(0));
+}
+
+/// Steps taken on this thread since the last `set_fuel`.
+pub fn used() -> u64 {
+    USED.with(|u| u.get())
+}
+
+/// Per-site hit counters of this thread.
+pub fn site_counts() -> [u64; SITES] {
+    COUNTS.with(|c| {
+        let mut a = [0; SITES];
+        for (i, x) in c.iter().enumerate() {
+            a[i] = x.get();
+        }
+        a
+    })
+}
+
+/// Install (or remove) the scheduler callback.
+pub fn set_scheduler(f: Option<Box<dyn Fn(u32) + Send + Sync>>) {
+    let on = f.is_some();
+    *SCHED_FN.write().unwrap() = f;
+    SCHED_ON.store(on, Ordering::SeqCst);
+}
+
+/// One engine step at `site`.
+#[inline]
+pub fn tick(site: u32) {
+    if SCHED_ON.load(Ordering::Relaxed) {
+        if let Some(f) = SCHED_FN.read().unwrap().as_ref() {
+            f(site);
+        }
+    }
+    USED.with(|u| u.set(u.get() + 1));
+    COUNTS.with(|c| {
+        let x = &c[(site as usize) % SITES];
+        x.set(x.get() + 1);
+    });
+    FUEL.with(|f| {
+        let v = f.get();
+        if v == 0 {
+            f.set(u64::MAX);
+            std::panic::resume_unwind(Box::new(FuelExhausted { site }));
+        }
+        f.set(v - 1);
+    });
+}
+
+/// Switches for `Regex::verif_new`: each bit turns one compile-time
+/// optimisation off.
+pub mod opts {
+    /// Skip the whole `Operation::optimize` pass.
+    pub const NO_OPTIMIZE: u32 = 1;
+    /// Keep backtracking repeats (no rewrite to `UnambiguousRepeat`).
+    pub const NO_UNAMBIGUOUS: u32 = 2;
+    /// No literal-prefix scan.
+    pub const NO_PREFIX: u32 = 4;
+    /// No first-character filter.
+    pub const NO_INITIAL_CLASS: u32 = 8;
+    /// No minimum-length cut-off.
+    pub const NO_MIN_LENGTH: u32 = 16;
+    /// No positional preconditions.
+    pub const NO_PRECONDITIONS: u32 = 32;
+    /// No start-anchor fast path.
+    pub const NO_HASBOL: u32 = 64;
+    /// Everything off.
+    pub const ALL_OFF: u32 = 127;
+}
